@@ -1,9 +1,14 @@
 package props
 
 import (
+	"fmt"
 	"go/types"
+	"strings"
 
 	"golang.org/x/tools/go/ssa"
+
+	"tdxlint/internal/check"
+	"tdxlint/internal/load"
 )
 
 // aggregators are calls whose error result carries their error arguments on.
@@ -72,4 +77,177 @@ func flowsToReturn(v ssa.Value) bool {
 func isAggregator(c *ssa.Call) bool {
 	cal := c.Call.StaticCallee()
 	return cal != nil && aggregators[cal.String()]
+}
+
+// errorsNotLost: in each of fns, the error result of every call to a
+// repository function (or a listed decoder) is consumed — tested against nil,
+// returned, or handed to another call — on a def-use path that does not go
+// through a loop-carried variable. An error that only reaches its test
+// through the phi of a loop header can be overwritten by a later iteration
+// before anybody looks at it (`for { …; x, err = f() }; if err != nil`).
+func (env *Env) errorsNotLost(rule string, fns []*ssa.Function) {
+	r := env.R
+	for _, fn := range fns {
+		for _, b := range fn.Blocks {
+			for _, in := range b.Instrs {
+				c, ok := in.(*ssa.Call)
+				if !ok {
+					continue
+				}
+				cal := c.Call.StaticCallee()
+				if cal == nil || !(env.P.InRepo(cal) || mustCheckLib[cal.String()]) {
+					continue
+				}
+				if cal.Name() == "Close" {
+					continue // terminal Close(): its error has no consumer by convention
+				}
+				res := cal.Signature.Results()
+				if res.Len() == 0 || !isErrType(res.At(res.Len()-1).Type()) {
+					continue
+				}
+				var errv ssa.Value
+				if res.Len() == 1 {
+					errv = c
+				} else {
+					for _, ref := range *c.Referrers() {
+						if ex, ok := ref.(*ssa.Extract); ok && ex.Index == res.Len()-1 {
+							errv = ex
+						}
+					}
+				}
+				key := load.FuncName(fn) + ">" + load.FuncName(cal)
+				where := env.P.Pos(c.Pos())
+				if errv == nil {
+					r.Fail(rule, key+"#dropped", where, "the error result of "+load.FuncName(cal)+" is discarded")
+					continue
+				}
+				if errConsumedDirectly(errv) {
+					r.OK(rule, key+"@"+fmt.Sprint(countKey(r, rule, key)), where, "error tested, returned or passed on before it can be overwritten")
+				} else {
+					r.Fail(rule, key+"#lost", where, "the error result of "+load.FuncName(cal)+" reaches a test only through a loop-carried variable (or not at all): a later iteration or assignment can overwrite it, so a failure of this call can end in a nil error")
+				}
+			}
+		}
+	}
+}
+
+// mustCheckLib: library decoders whose error must not be lost either.
+var mustCheckLib = map[string]bool{
+	"encoding/asn1.Unmarshal": true, "encoding/json.Unmarshal": true, "encoding/hex.DecodeString": true,
+	"crypto/x509.ParseCertificate": true, "crypto/x509.ParseRevocationList": true,
+}
+
+func countKey(r *check.Result, rule, prefix string) int {
+	n := 0
+	for _, o := range r.Obligations {
+		if o.Rule == rule && strings.HasPrefix(o.Key, rule+"@"+prefix+"@") {
+			n++
+		}
+	}
+	return n
+}
+
+func isLoopHeader(b *ssa.BasicBlock) bool {
+	for _, p := range b.Preds {
+		if b.Dominates(p) {
+			return true
+		}
+	}
+	return false
+}
+
+func errConsumedDirectly(v ssa.Value) bool {
+	seen := map[ssa.Value]bool{}
+	var walk func(v ssa.Value) bool
+	walk = func(v ssa.Value) bool {
+		if seen[v] || v.Referrers() == nil {
+			return false
+		}
+		seen[v] = true
+		for _, ref := range *v.Referrers() {
+			switch x := ref.(type) {
+			case *ssa.Return, *ssa.Store, *ssa.Defer, *ssa.Go, *ssa.Panic:
+				return true
+			case *ssa.BinOp:
+				if x.Referrers() != nil && len(*x.Referrers()) > 0 {
+					return true
+				}
+			case *ssa.Call:
+				return true
+			case *ssa.Phi:
+				if isLoopHeader(x.Block()) {
+					continue
+				}
+				if walk(x) {
+					return true
+				}
+			case *ssa.MakeInterface:
+				if walk(x) {
+					return true
+				}
+			case *ssa.ChangeInterface:
+				if walk(x) {
+					return true
+				}
+			case *ssa.TypeAssert:
+				return true
+			case *ssa.MakeClosure:
+				return true
+			}
+		}
+		return false
+	}
+	return walk(v)
+}
+
+// calleesBelow: the repository functions on the static call tree below the
+// entries (including function literals), the entries included.
+func (env *Env) calleesBelow(entries ...*ssa.Function) []*ssa.Function {
+	seen := map[*ssa.Function]bool{}
+	var out []*ssa.Function
+	var walk func(fn *ssa.Function)
+	walk = func(fn *ssa.Function) {
+		if fn == nil || seen[fn] || fn.Blocks == nil || !env.P.InRepo(fn) {
+			return
+		}
+		if fn.Pkg != nil && strings.Contains(fn.Pkg.Pkg.Path(), "/proto/") {
+			return
+		}
+		seen[fn] = true
+		out = append(out, fn)
+		for _, a := range fn.AnonFuncs {
+			walk(a)
+		}
+		for _, b := range fn.Blocks {
+			for _, in := range b.Instrs {
+				if c, ok := in.(ssa.CallInstruction); ok {
+					walk(c.Common().StaticCallee())
+				}
+			}
+		}
+	}
+	for _, e := range entries {
+		walk(e)
+	}
+	return out
+}
+
+// inPackages filters fns to those declared in one of the repository-relative package paths.
+func inPackages(fns []*ssa.Function, pkgs ...string) []*ssa.Function {
+	var out []*ssa.Function
+	for _, fn := range fns {
+		o := fn
+		for o.Parent() != nil {
+			o = o.Parent()
+		}
+		if o.Pkg == nil {
+			continue
+		}
+		for _, p := range pkgs {
+			if o.Pkg.Pkg.Path() == load.RepoPath(p) {
+				out = append(out, fn)
+			}
+		}
+	}
+	return out
 }
